@@ -38,7 +38,7 @@ def check(tier, seed):
                      "here); the generated evaluators compute the same equations whether or not a block is kept as a linear operator (translation validation for both "
                      "values of use_linear_operator); the equivalence of the two computations is then an instance of the machine-checked naturality theorem.")
     d.add_callsite_witness("callsite:implicit/solver-tolerance-consistent-with-the-masks", "bd_battery.py", "tol_finding",
-                           "precondition under which the explicit part of the implicit solvers agrees with the masks: its degeneracy tolerance (solver option eigenvalue_atol, or the KPM accuracy atol) "
+                           "precondition under which the explicit part of the implicit solvers agrees with the masks: its degeneracy tolerance (solver option eigenvalue_atol of the direct solver) "
                            "does not exceed the spacing of explicit levels that the masks (tolerance atol) separate; the library does not check it; the witness is replayed on every run")
     d.run_battery("rel_battery.py", ["implicit"], "7 problems of size 8-9: real / complex, Hermitian / non-Hermitian with biorthogonal bases, 1-2 explicit blocks, degenerate explicit "
                   "levels, explicit eigenvectors supplied out of energy order and interleaved; direct solver; all blocks of H_tilde, U, U_inv to order 3")
